@@ -1,11 +1,13 @@
 (* CompWriterProofs.v — the compression-layer writer is canonical: writing any pieces with
    write_all and finalizing leaves comp_format (concatenation of the pieces) in the inner
    layer, whatever the cut of the pieces. *)
+From MLA Require Import Limit.
 From MLA Require Import Base Stream CompLayer CompLayerProofs.
 From Coq Require Import ZifyBool ZifyNat ZifyN.
 Open Scope N_scope.
 
 Section WriterProofs.
+  Context {LIM : Limit}.
   Variable BLOCK : N.
   Hypothesis HB : 0 < BLOCK.
   Hypothesis HB32 : BLOCK < 2 ^ 32.
@@ -165,14 +167,16 @@ Section WriterProofs.
 
   (* finalize: the canonical wire form *)
   Lemma cw_finalize_spec acc w : Winv acc w -> 12 + 4 * nblocks BLOCK (len acc) < 2 ^ 32 ->
+    12 + 4 * nblocks BLOCK (len acc) <= lim ->      (* the SizesInfo footer under BINCODE_MAX_DESERIALIZE *)
     exists w', cw_finalize w = (w', Ok tt) /\ cw_out w' = comp_format BLOCK comp acc.
   Proof.
-    intros HW Hsmall. unfold comp_format, comp_format_n, comp_wire.
+    intros HW Hsmall Hlim. unfold comp_format, comp_format_n, comp_wire.
     assert (Hlf : forall sizes last, len (footer_of sizes last) = 12 + 4 * len sizes).
     { intros. unfold footer_of. rewrite !len_app, !len_le_bytes, len_flat_le4. cbn [N.of_nat]. lia. }
     destruct HW as [[-> ->]|(Hacc & Hst & Hout & Hsz)].
     - unfold CompLayer.cw_finalize. cbn [cw_init cw_st cw_out cw_sizes].
-      rewrite Hlf. destruct (N.leb_spec (2 ^ 32) (12 + 4 * len (@nil N))) as [H|_]; [rewrite (@len_nil N) in H; lia|].
+      rewrite Hlf. destruct (N.ltb_spec lim (12 + 4 * len (@nil N))) as [H|_]; [rewrite (@len_nil N) in H; unfold nblocks in Hlim; cbn in Hlim; lia|].
+      destruct (N.leb_spec (2 ^ 32) (12 + 4 * len (@nil N))) as [H|_]; [rewrite (@len_nil N) in H; lia|].
       eexists. split; [reflexivity|]. cbn [cw_out]. reflexivity.
     - pose proof (len_nonnil acc Hacc) as Hla.
       cbv zeta in Hst, Hout, Hsz. destruct (kspec (len acc) Hla) as [Hk1 Hk2].
@@ -192,6 +196,7 @@ Section WriterProofs.
       { rewrite len_app, len_map. unfold cdone, CompLayer.blocks_n. rewrite !len_map.
         unfold len. rewrite seq_length. cbn [length]. lia. }
       rewrite Hlf, Hlen_done.
+      destruct (N.ltb_spec lim (12 + 4 * (k + 1))) as [?|_]; [lia|].
       destruct (N.leb_spec (2 ^ 32) (12 + 4 * (k + 1))) as [?|_]; [lia|].
       eexists. split; [reflexivity|]. cbn [cw_out].
       rewrite map_app, concat_app. cbn [map concat]. rewrite app_nil_r.
@@ -202,20 +207,21 @@ Section WriterProofs.
   (* the writer is canonical *)
   Theorem comp_writer_canonical pieces :
     12 + 4 * nblocks BLOCK (len (concat pieces)) < 2 ^ 32 ->
+    12 + 4 * nblocks BLOCK (len (concat pieces)) <= lim ->
     exists w1 w2, cw_write_pieces cw_init pieces = (w1, Ok tt) /\ cw_finalize w1 = (w2, Ok tt) /\
                   cw_out w2 = comp_format BLOCK comp (concat pieces).
   Proof.
-    intros Hs.
+    intros Hs Hlm.
     destruct (cw_write_pieces_spec pieces [] cw_init (or_introl (conj eq_refl eq_refl))) as (w1 & Hw & HW1).
     cbn [app] in HW1.
-    destruct (cw_finalize_spec (concat pieces) w1 HW1 Hs) as (w2 & Hf & Ho).
+    destruct (cw_finalize_spec (concat pieces) w1 HW1 Hs Hlm) as (w2 & Hf & Ho).
     exists w1, w2. auto.
   Qed.
   (* write then read: whatever the pieces, the reader opened on the writer's output behaves as
      a cursor over their concatenation *)
   Variable dec : bytes -> bytes.
   Hypothesis Hcomp : forall x, dec (comp x) = x.
-  Variable LIMIT : N.
+  Notation LIMIT := (@lim LIM).
 
   Theorem comp_write_read_roundtrip pieces :
     let plain := concat pieces in
@@ -227,7 +233,7 @@ Section WriterProofs.
         exists c, comp_open LIMIT (Cursor (cw_out w2)) (fun i => (i, Ok tt)) 0 = (c, Ok tt) /\ R c 0.
   Proof.
     intros plain nb Hcs Hlim HL.
-    destruct (comp_writer_canonical pieces ltac:(apply Hlim)) as (w1 & w2 & Hw & Hf & Ho).
+    destruct (comp_writer_canonical pieces ltac:(apply Hlim) ltac:(apply Hlim)) as (w1 & w2 & Hw & Hf & Ho).
     exists w1, w2. split; [exact Hw|]. split; [exact Hf|].
     fold plain in Ho. rewrite Ho.
     pose proof (cursor_refines (comp_format BLOCK comp plain)) as HC.
